@@ -292,7 +292,14 @@ fn op_hist<IntT: for<'a> UInt<'a>>(c: &Case, scratch: &str) -> String {
                     let ok = if f.len() > 2 { f[2].parse().unwrap() } else { k };
                     let orc = if f.len() > 3 { f[3] == "1" } else { rc };
                     let other = format!("{dir}/other{step}.skf");
-                    make_array::<IntT>(ok, orc, f[1]).save(&other).unwrap();
+                    // a file of another k is written with the integer width that k takes (as `ska build` would)
+                    if ok == k {
+                        make_array::<IntT>(ok, orc, f[1]).save(&other).unwrap();
+                    } else if ok <= 31 {
+                        make_array::<u64>(ok, orc, f[1]).save(&other).unwrap();
+                    } else {
+                        make_array::<u128>(ok, orc, f[1]).save(&other).unwrap();
+                    }
                     let first = MergeSkaArray::<IntT>::load(&cur).unwrap();
                     let out = format!("{dir}/m{step}");
                     generic_modes::merge(&first, &[other], &out);
